@@ -52,7 +52,7 @@ def main():
         meta["checks"] = {}
         for p in [prop] + also:
             t0 = time.time()
-            r = sh("cd %s && DAGRT_REPO=%s ./check %s --tier %s" % (VERIF, scratch, p, tier))
+            r = sh("cd %s && DAGRT_REPO=%s VERIF_TIMEOUT=1500 ./check %s --tier %s" % (VERIF, scratch, p, tier))
             viol = [l for l in r.stdout.splitlines() if l.startswith("VIOLATION")]
             sigs = [l.strip() for l in r.stdout.splitlines() if l.strip().startswith("signature:")]
             meta["checks"][p] = {"cmd": "DAGRT_REPO=<patched tree> ./check %s --tier %s" % (p, tier), "rc": r.returncode,
